@@ -382,3 +382,77 @@ def text_presets(ctx):
             r = run_jawk(ctx, argv, stdin.encode()); lines = show(r['stdout']).split('\n')
             if lines != exp:
                 c.replay = {'argv': argv, 'stdin': stdin, 'expected': exp, 'actual': lines}; c.status = 'reproduced'; break
+
+
+# ---------------------------------------------------------------- nested values in a text / csv field
+def text_nested(ctx):
+    """TextPrinter::print_object / print_array: the value is printed by the JSON printer into a fresh string - in the concise
+    style (no whitespace, one line) and with utf8_strings on (with it off, code points above U+FFFF would go through the
+    \\u escape that reads back wrongly, the known finding of print.string) - and that string, whole and only it, is handed
+    to the printer's own string quoting. The JSON printer and the quoting are decided by print.* and text.csv_string."""
+    run = ctx.run
+    fam = run.family('text.nested', 'an array / object in a text or csv field is the concise JSON text of that value (utf8 strings, the style without whitespace), passed once through the field quoting; a failing JSON print is returned')
+    run.bounds['text nested'] = 'print_object / print_array of TextPrinter; the JSON printer and the string quoting are summarised (events with their arguments), their answers free'
+    JS = ctx.enums.get('JsonStyle') or []
+    JO = ctx.structs.get('JsonOutputOptions') or []
+    for meth in ('print_object', 'print_array'):
+        def s_json_print(ex, st, func, a, ty, meth=meth):
+            o = obj(st, a[0]); tgt = obj(st, a[1])
+            st.events.append(('json_print', func.split('::')[-1], o, origin(st, tgt), origin(st, a[2])))
+            set_model(st, tgt, tuple(model(st, tgt)) + ('JSONTEXT',)) if 'model' in st.heap[tgt.oid] else None
+            out = []
+            for good in (True, False):
+                s2 = st.clone(); out.append((s2, ok(s2, UNIT) if good else err(s2, named(s2, 'fmt::Error', 'fmt::Error'))))
+            return out
+        def s_print_string(ex, st, func, a, ty):
+            s_ = obj(st, a[2])
+            st.events.append(('quote', origin(st, a[0]), origin(st, a[1]), origin(st, s_), tuple(model(st, s_)) if 'model' in st.heap[s_.oid] else None))
+            v = ex.fresh_value(st, ty, st.fresh_name('quoted')); st.pc.append(z3.Or(ex.discr(st, v).t == 0, ex.discr(st, v).t == 1)); return [(st, v)]
+        summ = [(r'<JsonOutputOptions as Print<.*>>::print_(object|array)$', s_json_print), (r'<TextPrinter as Print<.*>>::print_string$', s_print_string),
+                (r'String::new$', lambda ex, st, f, a, t: [(st, seqobj(st, 'String', (), origin='BUFFER'))]), (r'as Deref>::deref$|String::as_str$', s_identity)]
+        ex = ctx.exec(summaries=summ, inline=[(r'JsonOutputOptions::\w+$', r'^output_style::<impl at [^>]*>::(consise|concise|compact|for_field|embedded)$')] if any(re.search(r'^output_style::<impl at [^>]*>::(consise|concise|compact|for_field|embedded)$', n) for n in ctx.fns) else [], max_visits=12)
+        F = find_method(ctx, meth, 'TextPrinter')
+        st = State(); so = named(st, 'self', 'TextPrinter'); w = named(st, 'W', 'W'); val = named(st, 'VALUE', 'container')
+        ex.new_frame(st, F, [slot(st, so, 'self*'), slot(st, w, 'w*'), slot(st, val, 'v*')])
+        for d in ex.run(st):
+            run.paths += 1
+            if d.status == 'infeasible': continue
+            fam.obligations += 1; fam.paths += 1; fam.witnesses += 1
+            hav = (d.havoc or [None])[0]
+            why = None
+            jp = [e for e in d.events if e[0] == 'json_print']; qs = [e for e in d.events if e[0] == 'quote']
+            if d.status != 'returned': why = f'{d.status} {d.notes[-1:]}'
+            elif len(jp) != 1 or jp[0][1] != meth or jp[0][4] != 'VALUE': why = f'the value is not printed exactly once by the JSON printer ({[(e[1], e[4]) for e in jp]})'
+            else:
+                o = jp[0][2]
+                try:
+                    style = ex.load(d, o.oid, ('f', None, JO.index('style')), 'JsonStyle'); utf8 = ex.load(d, o.oid, ('f', None, JO.index('utf8_strings')), 'bool')
+                    sd = ex.discr(d, style).t
+                    if not ex.valid(d, sd == JS.index('Consise'))[0]: why = 'the JSON text is not printed in the concise style'
+                    elif not ex.valid(d, utf8.t)[0]: why = 'the JSON text is printed with utf8_strings off (non-ASCII text is escaped; code points above U+FFFF then read back wrongly)'
+                except Exception as e_:
+                    why = f'the options of the JSON printer cannot be read ({type(e_).__name__})'; hav = hav or 'unmodelled options constructor'
+                rd = ex.discr(d, obj(d, d.ret)).t
+                if why is None:
+                    failed = jp and not qs
+                    if failed:
+                        if not ex.valid(d, rd == 1)[0]: why = 'a failing JSON print is not returned as an error'
+                    elif len(qs) != 1 or qs[0][1] != 'self' or qs[0][2] != 'W' or qs[0][3] != 'BUFFER' or qs[0][4] != ('JSONTEXT',): why = f'the JSON text is not handed whole and once to the field quoting: {[(q[1], q[2], q[3], q[4]) for q in qs]}'
+            if why is None: fam.discharged += 1
+            elif not any(c.role == meth for c in fam.candidates):
+                fam.candidates.append(Candidate(fam.name, meth, f'TextPrinter::{meth}: {why}', {'method': meth}, unmodelled=hav))
+        run.absorb(ex)
+    if fam.discharged: fam.add_sample({'call': 'TextPrinter::print_object(w, VALUE)', 'events': "json_print(Consise, utf8) -> BUFFER; quote(self, W, BUFFER)", 'verdict': 'as documented'})
+    from .cli import run_jawk, show
+    import csv, io
+    DEMOS = [({'v': ['é', '\U0001F603', 'a"b'], 'o': {'k中': ',\n'}}, ['-o', 'csv'])]
+    for c in fam.candidates:
+        c.status = 'unit'
+        for val, opts in DEMOS:
+            r = run_jawk(ctx, opts + ['--select', '.v=v', '--select', '.o=o'], json.dumps(val, ensure_ascii=False).encode())
+            rows = list(csv.reader(io.StringIO(show(r['stdout'])), skipinitialspace=True))
+            bad = r['rc'] != 0 or len(rows) != 2 or len(rows[1]) != 2
+            if not bad:
+                try: bad = json.loads(rows[1][0]) != val['v'] or json.loads(rows[1][1]) != val['o'] or ' ' in rows[1][0]
+                except Exception: bad = True
+            if bad: c.status = 'reproduced'; c.replay = {'argv': opts + ['--select', '.v=v', '--select', '.o=o'], 'stdin': json.dumps(val, ensure_ascii=False), 'rows': rows, 'rc': r['rc']}; break
